@@ -2264,73 +2264,73 @@ def _proto_scan(repo, out, rels):
             for c in calls:
                 st = astx.stmt_of(c)
                 which = astx.callee_attr(c)
-                if not (isinstance(st, ast.Assign) and st.value is c and len(st.targets) == 1 and
-                        isinstance(st.targets[0], ast.Tuple) and len(st.targets[0].elts) == 2):
+                if not (isinstance(st, ast.Assign) and st.value is c and st.targets and
+                        all(isinstance(t, ast.Tuple) and len(t.elts) == 2 for t in st.targets)):
                     out.unsure(f, st, f'result of {which} is not unpacked into a pair')
                     continue
-                t0, t1 = st.targets[0].elts
                 dn = ctx.node(st)
-                if which == 'determine_adder_scaler':
-                    r0, k0 = _slot_of_target(ctx, t0, dn, _DAS_SLOT)
-                    r1, k1 = _slot_of_target(ctx, t1, dn, _DAS_SLOT)
-                    if r0 is None or r1 is None:
-                        out.unsure(f, st, 'cannot see under which metadata key the unpacked values are stored')
-                        continue
-                    if (r0, r1) != ('adder', 'scaler'):
-                        out.bad(f, st, f"determine_adder_scaler returns (adder, scaler) but the result is stored as "
-                                f"('{k0}', '{k1}'): the additive and the multiplicative part are exchanged",
-                                key='das-unpack')
-                        continue
-                    b = _bind(c, das.node, skip_self=False)
-                    if b is None:
-                        out.unsure(f, st, 'star arguments')
-                        continue
-                    okargs = True
-                    for p, a in b.items():
-                        if isinstance(a, ast.Constant) and a.value is None:
+                for t0, t1 in [t.elts for t in st.targets]:   # `a, b = c, d = call(...)` stores the pair twice
+                    if which == 'determine_adder_scaler':
+                        r0, k0 = _slot_of_target(ctx, t0, dn, _DAS_SLOT)
+                        r1, k1 = _slot_of_target(ctx, t1, dn, _DAS_SLOT)
+                        if r0 is None or r1 is None:
+                            out.unsure(f, st, 'cannot see under which metadata key the unpacked values are stored')
                             continue
-                        nm = a.id if isinstance(a, ast.Name) else (astx.const_str(a.slice) if isinstance(a, ast.Subscript) else None)
-                        if nm == p:
+                        if (r0, r1) != ('adder', 'scaler'):
+                            out.bad(f, st, f"determine_adder_scaler returns (adder, scaler) but the result is stored as "
+                                    f"('{k0}', '{k1}'): the additive and the multiplicative part are exchanged",
+                                    key='das-unpack')
                             continue
-                        if nm in dparams:
-                            out.bad(f, st, f'`{astx.src(a)}` is passed as parameter `{p}` of determine_adder_scaler',
-                                    key='das-args')
-                        else:
-                            out.unsure(f, st, f'cannot tell the meaning of argument `{astx.src(a)}` for parameter `{p}`')
-                        okargs = False
-                    if okargs:
-                        out.ok(f, st, f"(adder, scaler) -> ('{k0}', '{k1}'); arguments match ref0/ref/adder/scaler")
-                else:
-                    tab = {'unit_scaler': 'factor', 'unit_adder': 'offset', '_resp_unit_scalers': 'factor',
-                           '_desvar_unit_scalers': 'factor'}
-                    r0, k0 = _slot_of_target(ctx, t0, dn, tab)
-                    r1, k1 = _slot_of_target(ctx, t1, dn, tab)
-                    if isinstance(t0, ast.Name) and r0 is None:
-                        # scaler local stored into self._resp_unit_scalers[...] / self._desvar_unit_scalers[...]
-                        for n in ctx.g.nodes:
-                            if n.kind == 'stmt' and isinstance(n.ast, ast.Assign) and isinstance(n.ast.value, ast.Name) \
-                                    and n.ast.value.id == t0.id and dn in ctx.rd.defs(n, t0.id):
-                                for t in n.ast.targets:
-                                    if isinstance(t, ast.Subscript) and (astx.path(t.value) or '').split('.')[-1] in tab:
-                                        r0, k0 = 'factor', astx.path(t.value)
-                    if not (k0 in tab or r0 == 'factor') and not (k1 in tab):
-                        continue   # a consumer outside the driver-scaling metadata (connections, get_val, ...)
-                    if r0 != 'factor' or r1 not in ('offset', 'ignored'):
-                        out.bad(f, st, f"unit_conversion returns (factor, offset) but the result is stored as ('{k0}', '{k1}')",
-                                key='unitconv-unpack')
-                        continue
-                    if len(c.args) != 2:
-                        out.unsure(f, st, 'unit_conversion not called with two positional arguments')
-                        continue
-                    a0, a1 = _units_role(ctx, c.args[0], dn), _units_role(ctx, c.args[1], dn)
-                    if (a0, a1) == ('source', 'declared'):
-                        out.ok(f, st, f"(factor, offset) of model units -> declared units stored as ('{k0}', '{k1}')")
-                    elif (a0, a1) == ('declared', 'source'):
-                        out.bad(f, st, 'unit_conversion(declared units, model units): the stored factor is the reciprocal '
-                                'of the one the values are converted with (convert_units(val, model, declared))',
-                                key='unitconv-args')
+                        b = _bind(c, das.node, skip_self=False)
+                        if b is None:
+                            out.unsure(f, st, 'star arguments')
+                            continue
+                        okargs = True
+                        for p, a in b.items():
+                            if isinstance(a, ast.Constant) and a.value is None:
+                                continue
+                            nm = a.id if isinstance(a, ast.Name) else (astx.const_str(a.slice) if isinstance(a, ast.Subscript) else None)
+                            if nm == p:
+                                continue
+                            if nm in dparams:
+                                out.bad(f, st, f'`{astx.src(a)}` is passed as parameter `{p}` of determine_adder_scaler',
+                                        key='das-args')
+                            else:
+                                out.unsure(f, st, f'cannot tell the meaning of argument `{astx.src(a)}` for parameter `{p}`')
+                            okargs = False
+                        if okargs:
+                            out.ok(f, st, f"(adder, scaler) -> ('{k0}', '{k1}'); arguments match ref0/ref/adder/scaler")
                     else:
-                        out.unsure(f, st, f'cannot classify the unit arguments ({a0}, {a1})')
+                        tab = {'unit_scaler': 'factor', 'unit_adder': 'offset', '_resp_unit_scalers': 'factor',
+                               '_desvar_unit_scalers': 'factor'}
+                        r0, k0 = _slot_of_target(ctx, t0, dn, tab)
+                        r1, k1 = _slot_of_target(ctx, t1, dn, tab)
+                        if isinstance(t0, ast.Name) and r0 is None:
+                            # scaler local stored into self._resp_unit_scalers[...] / self._desvar_unit_scalers[...]
+                            for n in ctx.g.nodes:
+                                if n.kind == 'stmt' and isinstance(n.ast, ast.Assign) and isinstance(n.ast.value, ast.Name) \
+                                        and n.ast.value.id == t0.id and dn in ctx.rd.defs(n, t0.id):
+                                    for t in n.ast.targets:
+                                        if isinstance(t, ast.Subscript) and (astx.path(t.value) or '').split('.')[-1] in tab:
+                                            r0, k0 = 'factor', astx.path(t.value)
+                        if not (k0 in tab or r0 == 'factor') and not (k1 in tab):
+                            continue   # a consumer outside the driver-scaling metadata (connections, get_val, ...)
+                        if r0 != 'factor' or r1 not in ('offset', 'ignored'):
+                            out.bad(f, st, f"unit_conversion returns (factor, offset) but the result is stored as ('{k0}', '{k1}')",
+                                    key='unitconv-unpack')
+                            continue
+                        if len(c.args) != 2:
+                            out.unsure(f, st, 'unit_conversion not called with two positional arguments')
+                            continue
+                        a0, a1 = _units_role(ctx, c.args[0], dn), _units_role(ctx, c.args[1], dn)
+                        if (a0, a1) == ('source', 'declared'):
+                            out.ok(f, st, f"(factor, offset) of model units -> declared units stored as ('{k0}', '{k1}')")
+                        elif (a0, a1) == ('declared', 'source'):
+                            out.bad(f, st, 'unit_conversion(declared units, model units): the stored factor is the reciprocal '
+                                    'of the one the values are converted with (convert_units(val, model, declared))',
+                                    key='unitconv-args')
+                        else:
+                            out.unsure(f, st, f'cannot classify the unit arguments ({a0}, {a1})')
 
 
 def _proto_convert_units(repo, out):
@@ -2366,6 +2366,24 @@ def _proto_convert_units(repo, out):
 
 
 # =========================================================================== units mirror
+def _temp_store(ctx, n, call):
+    """For `X[...] = f(X, ..)` / `X op= ..` / `X[:] = f(X)` where local X was taken as `A[idx]`: (X, the `A[idx]` expr)."""
+    st = n.ast
+    if not (isinstance(st, ast.Assign) and len(st.targets) == 1):
+        return None
+    t = st.targets[0]
+    if not (isinstance(t, ast.Subscript) and isinstance(t.value, ast.Name) and _whole(t.slice)):
+        return None
+    X = t.value.id
+    a0 = call.args[0] if call.args else None
+    if not (isinstance(a0, ast.Name) and a0.id == X):
+        return None
+    ds = ctx.defs(n, X)
+    if len(ds) != 1 or ds[0][0] != 'expr' or not isinstance(ds[0][1], ast.Subscript):
+        return None
+    return X, ds[0][1]
+
+
 @rule('C20.units-mirror', floor=3)
 def units_mirror(repo, out):
     """_get_voi_val converts model units -> declared units; _set_design_var converts declared units -> model units, in place."""
@@ -2394,7 +2412,19 @@ def units_mirror(repo, out):
                             key=f'units-direction-{word}')
                     continue
                 if not (isinstance(n.ast, ast.Assign) and len(n.ast.targets) == 1 and n.ast.value is c and
-                        K(n.ast.targets[0]) == K(c.args[0])):
+                        K(n.ast.targets[0]) in (K(c.args[0]), K(ctx.resolve(c.args[0], n)[0]))):
+                    tmp = _temp_store(ctx, n, c)
+                    if tmp is not None:
+                        X, d_expr = tmp
+                        if isinstance(d_expr.slice, ast.Slice):
+                            out.ok(fn, n.ast, f'{word}: {want[0]} -> {want[1]} units, written through the slice view `{X}`')
+                        else:
+                            out.bad(fn, n.ast, f'the converted value is written into `{X}`, a temporary taken as '
+                                    f'`{astx.src(d_expr)}`: for an index array (list/array `indices=` of the variable) that '
+                                    f'is a copy, so the conversion never reaches `{astx.src(d_expr.value)}` and the model '
+                                    f'keeps the value in the wrong units. Store into `{astx.src(d_expr)}` directly.',
+                                    key=f'units-store-through-copy-{word}')
+                        continue
                     out.unsure(fn, n.ast, 'converted value is not stored back where it was read from')
                     continue
                 # the conversion must be skipped exactly when no units were declared
@@ -3353,6 +3383,129 @@ def meta_readonly_all(repo, out):
     _readonly_scan(repo, out, rest)
 
 
+# =========================================================================== who writes total_adder/total_scaler
+TOTAL_WRITERS = {
+    (BAUTO, 'BoundsAutoscaler.setup'): 'bounds-derived pair installed into a private copy of the metadata (C20.bounds-autoscaler)',
+}
+
+
+def _das_call_ok(call, das_node):
+    """None when the determine_adder_scaler call passes the declaration's ref0/ref; else a reason."""
+    b = _bind(call, das_node, skip_self=False)
+    if b is None:
+        return 'star arguments'
+    dropped = [p for p in ('ref0', 'ref') if p not in b or (isinstance(b[p], ast.Constant) and b[p].value is None)]
+    if len(dropped) == 2:
+        return ('the pair is computed with ref0=None, ref=None, i.e. from the declared adder/scaler only: a variable '
+                'scaled with ref/ref0 loses its scaling')
+    if dropped:
+        return f'the pair is computed without the declared {dropped[0]}'
+    return None
+
+
+def _total_store_origin(ctx, value, at, das_node, depth=0):
+    """Classify where a value stored under total_adder/total_scaler comes from: list of problems (empty = fine),
+    or None when the origin is not recognised."""
+    if depth > 4:
+        return None
+    if isinstance(value, ast.Constant) and value.value is None:
+        return []          # normalisation of the neutral element to None
+    if isinstance(value, ast.Call) and astx.callee_attr(value) == 'determine_adder_scaler':
+        r = _das_call_ok(value, das_node)
+        return [r] if r else []
+    if isinstance(value, ast.Name):
+        probs = []
+        ds = ctx.defs(at, value.id)
+        if not ds:
+            return None
+        for kind, payload, d in ds:
+            if kind == 'unpack':
+                r = _total_store_origin(ctx, payload[0], d, das_node, depth + 1)
+            elif kind == 'expr':
+                r = _total_store_origin(ctx, payload, d, das_node, depth + 1)
+            else:
+                r = None
+            if r is None:
+                return None
+            probs += r
+        return probs
+    return None
+
+
+def _total_writers_scan(repo, out, rels):
+    das = repo.func(GUTILS, 'determine_adder_scaler').node
+    for rel in rels:
+        src = repo.source(rel)
+        if 'total_scaler' not in src and 'total_adder' not in src:
+            continue
+        m = repo.module(rel)
+        for f in m.funcs.values():
+            stores = []    # (stmt, key, value expr or None)
+            for st in astx.walk_stmts(f.node.body):
+                if isinstance(st, ast.Assign):
+                    for t in st.targets:
+                        elts = t.elts if isinstance(t, (ast.Tuple, ast.List)) else [t]
+                        for i_, e in enumerate(elts):
+                            if isinstance(e, ast.Subscript) and astx.const_str(e.slice) in _META_KEYS:
+                                v = st.value
+                                if isinstance(t, (ast.Tuple, ast.List)) and isinstance(v, (ast.Tuple, ast.List)) and \
+                                        len(v.elts) == len(elts):
+                                    v = v.elts[i_]
+                                stores.append((st, astx.const_str(e.slice), v))
+                if isinstance(st, (ast.If, ast.For, ast.While, ast.With, ast.Try)):
+                    continue
+                for w in astx.walk(st):
+                    if isinstance(w, ast.Dict):
+                        for k, v in zip(w.keys, w.values):
+                            if astx.const_str(k) in _META_KEYS:
+                                stores.append((st, astx.const_str(k), v))
+                    if isinstance(w, ast.Call) and astx.callee_attr(w) in ('update', 'dict', 'setdefault'):
+                        for kw in w.keywords:
+                            if kw.arg in _META_KEYS:
+                                stores.append((st, kw.arg, kw.value))
+            if not stores:
+                continue
+            if (rel, f.qualname) in TOTAL_WRITERS:
+                for st, k, v in stores:
+                    out.ok(f, st, TOTAL_WRITERS[(rel, f.qualname)])
+                continue
+            ctx = Ctx(f)
+            seen = set()
+            for st, k, v in stores:
+                if (id(st), k) in seen:
+                    continue
+                seen.add((id(st), k))
+                ns = ctx.g.nodes_of(st)
+                if not ns:
+                    continue
+                r = _total_store_origin(ctx, v, ns[0], das)
+                if r is None:
+                    out.bad(f, st, f"meta['{k}'] is written from `{astx.src(v)}`, which is not the result of "
+                            'determine_adder_scaler(ref0, ref, adder, scaler) of the declaration: values, bounds, jacobian '
+                            'and multipliers are scaled with a pair the user did not declare (only the tabled writers may '
+                            'install a different pair)', key=f'total-writer-{k}')
+                elif r:
+                    out.bad(f, st, f"meta['{k}']: {r[0]}", key=f'total-writer-{k}')
+                else:
+                    out.ok(f, st, f"meta['{k}'] <- determine_adder_scaler(ref0, ref, adder, scaler) (or None for the neutral element)")
+
+
+@rule('C20.total-writers', floor=12)
+def total_writers(repo, out):
+    """meta['total_adder'|'total_scaler'] is only ever written with the result of determine_adder_scaler called with the declaration's ref0/ref/adder/scaler (frozen table of other writers)."""
+    _total_writers_scan(repo, out, [SYSTEM, AUTO, BAUTO, DRIVER, OVEC])
+
+
+@rule('C20.total-writers-all', floor=1, tier='thorough')
+def total_writers_all(repo, out):
+    """Same over the rest of the shipped package."""
+    rest = [r for r in repo.shipped() if r not in (SYSTEM, AUTO, BAUTO, DRIVER, OVEC)]
+    n0 = len(out.items)
+    _total_writers_scan(repo, out, rest)
+    if len(out.items) == n0:
+        out.ok((GUTILS, 'determine_adder_scaler'), None, f'no other writer of total_adder/total_scaler in {len(rest)} shipped modules')
+
+
 # =========================================================================== self-test
 _UNSC = ("            if scaler is not None:\n                vec[name] /= scaler\n"
          "            if adder is not None:\n                vec[name] -= adder\n")
@@ -3656,6 +3809,29 @@ selftest(
     Mutant('bound-array-branch-unmasked', AUTO, 'np.asarray(scaler)[finite]', 'np.asarray(scaler)', 'C20.bounds'),
     Mutant('scale-flag-set-before-early-exit', AUTO, "                vec[name] *= scaler\n        vec._driver_scaling = True\n",
            "                vec[name] *= scaler\n        if not self._has_scaling:\n            return vec\n        vec._driver_scaling = True\n", 'C20.flag'),
+    # ---- round 2
+    Mutant('seed2-1-total-overwritten-in-units-setup', SYSTEM, "                meta['adder'], meta['scaler'] = \\\n                    determine_adder_scaler(None, None,",
+           "                meta['total_adder'], meta['total_scaler'] = meta['adder'], meta['scaler'] = \\\n                    determine_adder_scaler(None, None,",
+           'C20.total-writers'),
+    Mutant('total-computed-without-ref', SYSTEM, "resp['total_adder'], resp['total_scaler'] = determine_adder_scaler(ref0, ref, adder, scaler)",
+           "resp['total_adder'], resp['total_scaler'] = determine_adder_scaler(None, None, adder, scaler)", 'C20.total-writers'),
+    Mutant('total-scaler-is-user-scaler', SYSTEM, "            'total_scaler': total_scaler,\n        }", "            'total_scaler': scaler,\n        }",
+           'C20.total-writers'),
+    Mutant('total-written-by-autoscaler', AUTO, "                scaler, adder = meta['total_scaler'], meta['total_adder']\n",
+           "                scaler, adder = meta['total_scaler'], meta['total_adder']\n                meta['total_adder'] = adder or 0.0\n",
+           'C20.total-writers'),
+    Mutant('seed2-2-adder-nested-under-scaler', AUTO, "            if adder is not None:\n                vec[name] -= adder\n",
+           "                if adder is not None:\n                    vec[name] -= adder\n", 'C20.mirror'),
+    Mutant('seed2-3-convert-through-temporary', DRIVER, "                desvar[loc_idxs] = convert_units(desvar[loc_idxs], units, src_units)\n",
+           "                dv_vals = desvar[loc_idxs]\n                dv_vals[...] = convert_units(dv_vals, units, src_units)\n", 'C20.units-mirror'),
+    Mutant('convert-through-temporary-meta-units', DRIVER, "                desvar[loc_idxs] = convert_units(desvar[loc_idxs], meta['units'], src_units)\n",
+           "                tmp_ = desvar[loc_idxs]\n                tmp_[:] = convert_units(tmp_, meta['units'], src_units)\n", 'C20.units-mirror'),
+    Twin('twin-convert-read-temporary-store-direct', DRIVER, "                desvar[loc_idxs] = convert_units(desvar[loc_idxs], units, src_units)\n",
+         "                dv_vals = desvar[loc_idxs]\n                desvar[loc_idxs] = convert_units(dv_vals, units, src_units)\n"),
+    Twin('twin-total-keywords', SYSTEM, "resp['total_adder'], resp['total_scaler'] = determine_adder_scaler(ref0, ref, adder, scaler)",
+         "resp['total_adder'], resp['total_scaler'] = determine_adder_scaler(ref0=ref0, ref=ref, adder=adder, scaler=scaler)"),
+    Twin('twin-total-subscript-stores', SYSTEM, "            'total_adder': total_adder,\n            'total_scaler': total_scaler,\n        }\n",
+         "        }\n        new_obj_metadata['total_adder'] = total_adder\n        new_obj_metadata['total_scaler'] = total_scaler\n"),
     # ---- twins
     Twin('twin-order-extra-guarded-debug', TOTJAC, "                self._apply_unit_scaling(self.J_dict)\n\n                # Driver scaling.",
          "                if debug_print:\n                    print('scaling', flush=True)\n                self._apply_unit_scaling(self.J_dict)\n\n                # Driver scaling."),
